@@ -177,7 +177,7 @@ def replay(body):
 def run(ctx):
     rng = ctx.rng
     ctx.check_theorems()
-    ctx.check_generated(['qfm', 'vmatch', 'vidx', 'vfit'])
+    ctx.check_generated(['qfm', 'vmatch', 'vidx', 'vfit', 'fm'])
     # (K) trace-driven: the real lattice search's answers are recorded and fed to the Coq loop as the oracle
     exprs, meta = [], []
     nprogress = 0
